@@ -9,6 +9,7 @@ import operator
 import maz
 import math
 import puan
+import puan._verif
 import sys
 import puan_rspy as pr
 from enum import IntEnum
@@ -640,9 +641,13 @@ class ge_polyhedron(variable_ndarray):
         red_rows = ge_polyhedron.reducable_rows(_M) * 1
         full_cols = numpy.zeros(_M.A.shape[1], dtype=int)*numpy.nan
         full_rows = boolean_ndarray(numpy.zeros(_M.shape[0], dtype=int))
+        if puan._verif.ENABLED:
+            puan._verif.emit("reduce_init", M=_M.copy(), red_cols=red_cols.copy(), red_rows=numpy.array(red_rows))
         while (~numpy.isnan(red_cols)).any() | red_rows.any():
             _M = ge_polyhedron.reduce_columns(_M, red_cols)
             full_cols[numpy.isnan(full_cols)] = red_cols
+            if puan._verif.ENABLED:
+                puan._verif.emit("reduce_cols", M=_M.copy(), full_cols=full_cols.copy())
 
             if _M.shape[1] <= 1:
                 break
@@ -650,12 +655,16 @@ class ge_polyhedron(variable_ndarray):
             red_rows = ge_polyhedron.reducable_rows(_M) * 1
             _M = ge_polyhedron.reduce_rows(_M, red_rows)
             full_rows[full_rows == 0] = red_rows
+            if puan._verif.ENABLED:
+                puan._verif.emit("reduce_rows", M=_M.copy(), full_rows=numpy.array(full_rows))
 
             if _M.shape[0] == 0:
                 break
 
             red_cols = ge_polyhedron.reducable_columns_approx(_M)
             red_rows = ge_polyhedron.reducable_rows(_M) * 1
+            if puan._verif.ENABLED:
+                puan._verif.emit("reduce_recompute", red_cols=red_cols.copy(), red_rows=numpy.array(red_rows))
 
         return full_rows, full_cols
 
